@@ -26,6 +26,7 @@ import numpy as np
 import sympy as sp
 
 from ..core import norm, calls_in, AnalysisError
+from .. import lints, effects
 from ..symx import SymEval, SymObj, PyStub, Path, Opaque, WouldRaise, ModelError, module_aliases, symarray, is_zero, equal, arr, is_arr
 from . import c17
 from .c14 import At, Bx, _unique
@@ -693,8 +694,35 @@ def disregistry(ctx):
     c17.disregistry(ctx)
 
 
+def own_planes(ctx):
+    """the boundary builders move the planes they get from Box.planes in place (plane.point -= width * normal); Plane keeps the point array it is given, so every
+    array handed to a Plane by Box.planes must be a fresh object: not the box's stored origin or vectors (the reference cell would move with the boundary), and a new
+    one for each plane (two faces through one array would move together)"""
+    BOX = 'atomman/core/Box.py'
+    cls = ctx.fn(BOX, 'Box')
+    pl = ctx.fn(BOX, 'Box.planes')
+    summ = effects.class_property_summaries(cls, base={'deepcopy': ('fresh',)})
+    eff = effects.Effects(pl, summaries=summ)
+    calls = [c for c in calls_in(pl) if norm(c.func) == 'Plane']
+    bad = []
+    for c in calls:
+        for a in list(c.args) + [k.value for k in c.keywords]:
+            o = eff.origins(a)
+            if o != {effects.FRESH}:
+                bad.append('%s (line %d) may be %s' % (norm(a), a.lineno, sorted(x for x in o if x != effects.FRESH)))
+    ctx.ob('OWN-PLANES', BOX + '::Box.planes', 'every normal and point given to the %d planes is a fresh array (a copy-returning property or a computed value), never the box\'s own storage or a shared object' % len(calls),
+           len(calls) == 6 and not bad, '; '.join(bad), node=pl)
+    pt = ctx.fn('atomman/region/Plane.py', 'Plane.point')
+    ctx.floor('OWN-PLANES/planes', len(calls), 6)
+
+
+def deleted_count(ctx):
+    """the number of atoms to delete (a ratio of volumes) is admitted by a tolerant test and made an int by rounding"""
+    lints.tolerant_integer(ctx, 'DELETED-COUNT', PA, 'build_disl_array', floor=1)
+
+
 def run(ctx):
     ctx.explanation = ('C13: the orientation table, slip-plane shifts, monopole and periodic-array generators and their boundary regions are evaluated on symbolic / model inputs with recording stubs: '
                        'which vector goes in which cell row (handedness), shifts midway between planes, the supersize -> shift -> wrap -> copy -> displace -> pbc -> wrap sequence and its arguments, '
                        'symmetric multipliers, boundary re-typing, cylinder radius on model cross-sections, the b/2 box tilt, refusals, old_id, the linear field. Not decided: the disregistry integral, overlaps.')
-    ctx.run_rules([orient, shifts, monopole, boundary, array, array_model, disregistry])
+    ctx.run_rules([orient, shifts, monopole, boundary, array, array_model, deleted_count, own_planes, disregistry])
